@@ -527,3 +527,6 @@ RULES = [
     ("C02.PERFECTCONST", 7, rule_perfectconst),
     ("C02.CHORDREFLEX", 10, rule_chordreflex),
 ]
+
+from . import common as _common_purity
+RULES = RULES + _common_purity.purity_rules("C02")
